@@ -94,7 +94,7 @@ def run_cp(name, timeout=3000, sabotage=None, with_parse=False):
         ok = 'Model checking completed. No error has been found.' in out
         states, trans = tlcrun.parse_stats(out)
         return {'model': 'CPSystem/' + name + ('+parse' if with_parse else ''), 'ok': ok, 'states': states, 'transitions': trans, 'wall_s': round(wall, 1),
-                'what': 'transcribed change-point algorithms (apply, remove, __getitem__, __iadd__, ljust/rjust/center, copy), texts <= %d, '
+                'what': 'transcribed algorithms (apply, remove, __getitem__, __iadd__, ljust/rjust/center, copy, replace, to_str with the optimiser' + (', set_ansi_str/parse_graphic_sequence/simplify' if with_parse else '') + '), texts <= %d, '
                         '%d registers, depth %d, palette %s: WF (the library self-check), NoDup, refinement of every contract clause, '
                         'TablesFramed on every transition' % (ml, mr, md, [PALETTE[i - 1] for i in pal]),
                 'detail': '' if ok else '\n'.join(l for l in out.splitlines() if l.startswith('Error') or 'violated' in l)[:1500]}
